@@ -44,7 +44,14 @@ def token(disasm, value):
             raise Unsupported("push constant out of range: %s" % value)
         return "PUSH:%x" % v
     if disasm in PSEUDO_PUSH:
-        return "SYM:%s:%s" % (disasm.replace(" ", "_"), "" if value is None else str(value))
+        v = "" if value is None else str(value)
+        if disasm != "PUSH [tag]" and v:
+            # hash / index operands are numbers written in hex: leading zeros and case are not significant
+            try:
+                v = "%x" % int(v, 16)
+            except ValueError:
+                pass
+        return "SYM:%s:%s" % (disasm.replace(" ", "_"), v)
     if disasm.startswith("DUP") or disasm.startswith("SWAP"):
         k = int(disasm[3:] if disasm.startswith("DUP") else disasm[4:])
         if not 1 <= k <= 16:
